@@ -293,6 +293,7 @@ structure Separated (score : φ → φ → R) (cands : Nat → List φ) (m : Nat
   col : ∀ e ∈ ident, ∀ (h : e.1 < cur.length) (i' : Nat) (h' : i' < cur.length), i' ≠ e.1 →
     ∀ f ∈ cands e.2, ∀ f' ∈ cands e.2, score cur[i'] f' < score cur[e.1] f
 
+omit [IsStrictOrderedRing R] in
 theorem entry_cost (rd : Reduction) (score : φ → φ → R) (cands : Nat → List φ) (m : Nat)
     (cur : List φ) (i t : Nat) (hi : i < cur.length) (ht : t < m) :
     entry (toCost (scoreMatrixP rd score cands m cur)) (i, t) =
@@ -350,5 +351,142 @@ theorem score_matrix_dominant (rd : Reduction) (score : φ → φ → R) (cands 
     exact WithTop.coe_lt_coe.2 (neg_lt_neg hlt)
 
 end sep
+
+
+/-! ## Hungarian: the optimum-uniqueness contract as a hypothesis -/
+
+section hung
+variable {R : Type} [LinearOrder R]
+
+/-- scipy contract assumed for C10 (validated per recorded call by the harness, not proved):
+    on a finite cost matrix in which `ident` is dominant and touches every edge, the optimal
+    assignment is exactly `ident`. -/
+def LsaPicksIdentity (ext : Ext R) : Prop :=
+  ∀ (m : Nat) (cost : List (List (Option R))) (ident : List (Nat × Nat)),
+    cost ≠ [] → (∀ row ∈ cost, row.length = m) → (∀ row ∈ cost, ∀ o ∈ row, o ≠ none) →
+    (∀ e ∈ ident, e.1 < cost.length ∧ e.2 < m) → Dominant cost m ident →
+    (∀ g : Nat × Nat, g.1 < cost.length → g.2 < m → ∃ e ∈ ident, e.1 = g.1 ∨ e.2 = g.2) →
+    ∀ p, p ∈ ext.lsa cost ↔ p ∈ ident
+
+theorem hungarian_stage_identity {ext : Ext R} (hpick : LsaPicksIdentity ext)
+    (m : Nat) (cost : List (List (Option R))) (hne : cost ≠ [])
+    (hrect : ∀ row ∈ cost, row.length = m) (hsome : ∀ row ∈ cost, ∀ o ∈ row, o ≠ none)
+    (ident : List (Nat × Nat)) (hb : ∀ e ∈ ident, e.1 < cost.length ∧ e.2 < m)
+    (hdom : Dominant cost m ident)
+    (hcov : ∀ g : Nat × Nat, g.1 < cost.length → g.2 < m → ∃ e ∈ ident, e.1 = g.1 ∨ e.2 = g.2) :
+    ∃ ms, assignStage Fixes.repaired .hungarian ext m cost = .ok ms ∧ ∀ p, p ∈ ms ↔ p ∈ ident := by
+  have hv := validCols_full hne hrect hsome
+  have hsub := subMatrix_full hrect
+  have hP := hpick m cost ident hne hrect hsome hb hdom hcov
+  have hinf := infeasible_sub m cost
+  rw [hv, hsub] at hinf
+  have hback : (ext.lsa cost).map (fun p => (p.1, (List.range m).getD p.2 0)) = ext.lsa cost := by
+    conv_rhs => rw [← List.map_id (ext.lsa cost)]
+    apply List.map_congr_left
+    intro p hp
+    have := (hb p ((hP p).1 hp)).2
+    simp [List.getD_eq_getElem?_getD, this]
+  refine ⟨ext.lsa cost, ?_, hP⟩
+  have hinf' : infeasible m cost = false := by simpa using hinf
+  unfold assignStage
+  simp only [Fixes.repaired, hv, hsub, List.length_range, hinf', Bool.false_eq_true, if_false, hback]
+
+end hung
+
+/-! ## one step of the tracker when the matching stage returns the identity edges -/
+
+section stepId
+variable {R φ : Type} [LT R] [DecidableLT R] [Add R] [Div R] [OfNat R 0] [NatCast R] [Neg R]
+
+/-- what "identity preserved" means for one frame: detections of known animals keep their track,
+    newcomers above the threshold get an id `≥ m` that nobody held -/
+def IdentityStep (thr : R) (m : Nat) (cur : List (φ × R)) (ident : List (Nat × Nat))
+    (ids : List (Option Nat)) : Prop :=
+  (∀ i t, (i, t) ∈ ident → ids[i]? = some (some t)) ∧
+  (∀ i (h : i < cur.length), (∀ t, (i, t) ∉ ident) → thr < cur[i].2 →
+    ∃ t, m ≤ t ∧ ids[i]? = some (some t))
+
+omit [Add R] [Div R] [OfNat R 0] [NatCast R] [Neg R] in
+theorem identityStep_of_alloc (thr : R) (m : Nat) (cur : List (φ × R)) (ms ident : List (Nat × Nat))
+    (hv : MatchValid cur.length m ms) (hset : ∀ p, p ∈ ms ↔ p ∈ ident) (tracks : List Nat)
+    (htr : tracks = List.range m) :
+    IdentityStep thr m cur ident
+      (allocate thr (cur.map (·.2)) (assignIds cur.length ms) tracks).1 := by
+  subst htr
+  have H := identity_ids thr (cur.map (·.2)) m ms ident (by simpa using hv) hset
+  simp only [List.length_map] at H
+  refine ⟨H.1, ?_⟩
+  intro i h hn hthr
+  exact H.2 i (by simpa using h) hn (by simpa using hthr)
+
+theorem FW.identity_step_of_stage (cfg : Config R) (hfx : cfg.fx = Fixes.repaired) (ext : Ext R)
+    (score : φ → φ → R) (s : FW φ) (hs : s.Inv) (hq : s.queue ≠ []) (cur : List (φ × R))
+    (ident : List (Nat × Nat)) (hid : ident ≠ [])
+    (hstage : ∃ ms, assignStage Fixes.repaired cfg.matcher ext s.tracks.length
+        (toCost (scoreMatrixP cfg.red score s.cands s.tracks.length (cur.map (·.1)))) = .ok ms ∧
+        MatchValid cur.length s.tracks.length ms ∧ ∀ p, p ∈ ms ↔ p ∈ ident) :
+    ∃ s' ids, FW.step cfg ext score s cur = .ok (s', ids) ∧
+      IdentityStep cfg.thr s.tracks.length cur ident ids := by
+  obtain ⟨ms, hms, hv, hset⟩ := hstage
+  have hst : cfg.fx.stale = true := by rw [hfx]; rfl
+  have hq' : s.queue.isEmpty = false := by simpa using hq
+  have hmsne : ms ≠ [] := by
+    obtain ⟨e, he⟩ := List.exists_mem_of_ne_nil _ hid
+    exact List.ne_nil_of_mem ((hset e).2 he)
+  have hg : guardOk cfg.fx ms = true := by simp [guardOk, hfx, Fixes.repaired, hmsne]
+  have hstep : FW.step cfg ext score s cur = .ok (FW.update cfg s cur ms) := by
+    unfold FW.step
+    rw [hq']
+    have h1 : Fixes.repaired.stale = true := rfl
+    simp only [Bool.false_eq_true, if_false, hfx, h1, scoreMatrix_repaired, FW.stepWith, hms]
+  have hupd : (FW.update cfg s cur ms).2 =
+      (allocate cfg.thr (cur.map (·.2)) (assignIds cur.length ms) s.tracks).1 := by
+    simp only [FW.update, hg, if_true]
+  refine ⟨(FW.update cfg s cur ms).1, (FW.update cfg s cur ms).2, by rw [hstep], ?_⟩
+  rw [hupd]
+  exact identityStep_of_alloc cfg.thr s.tracks.length cur ms ident hv hset s.tracks hs.tracks
+
+theorem LQ.identity_step_of_stage (cfg : Config R) (hfx : cfg.fx = Fixes.repaired) (ext : Ext R)
+    (score : φ → φ → R) (s : LQ φ) (hs : s.Inv) (hq : s.queues ≠ []) (cur : List (φ × R))
+    (ident : List (Nat × Nat)) (hid : ident ≠ [])
+    (hstage : ∃ ms, assignStage Fixes.repaired cfg.matcher ext s.tracks.length
+        (toCost (scoreMatrixP cfg.red score s.cands s.tracks.length (cur.map (·.1)))) = .ok ms ∧
+        MatchValid cur.length s.tracks.length ms ∧ ∀ p, p ∈ ms ↔ p ∈ ident) :
+    ∃ s' ids, LQ.step cfg ext score s cur = .ok (s', ids) ∧
+      IdentityStep cfg.thr s.tracks.length cur ident ids := by
+  obtain ⟨ms, hms, hv, hset⟩ := hstage
+  have hst : cfg.fx.stale = true := by rw [hfx]; rfl
+  have hq' : s.queues.isEmpty = false := by simpa using hq
+  have hmsne : ms ≠ [] := by
+    obtain ⟨e, he⟩ := List.exists_mem_of_ne_nil _ hid
+    exact List.ne_nil_of_mem ((hset e).2 he)
+  have hg : guardOk cfg.fx ms = true := by simp [guardOk, hfx, Fixes.repaired, hmsne]
+  have hlq : cfg.fx.lqList = true := by rw [hfx]; rfl
+  have hstep : LQ.step cfg ext score s cur = LQ.update cfg s cur ms := by
+    unfold LQ.step
+    rw [hq']
+    have h1 : Fixes.repaired.stale = true := rfl
+    simp only [Bool.false_eq_true, if_false, hfx, h1, scoreMatrix_repaired, LQ.stepWith, hms]
+  have hupd : ∃ s', LQ.update cfg s cur ms = .ok (s',
+      (allocate cfg.thr (cur.map (·.2)) (assignIds cur.length ms) s.tracks).1) := by
+    simp only [LQ.update, hg, if_true, hlq, Bool.true_eq_false, false_and, if_false]
+    exact ⟨_, rfl⟩
+  obtain ⟨s', hs'⟩ := hupd
+  refine ⟨s', _, by rw [hstep, hs'], ?_⟩
+  exact identityStep_of_alloc cfg.thr s.tracks.length cur ms ident hv hset s.tracks hs.tracks
+
+/-- local queues: every known track has a candidate (a consequence of the invariant) -/
+theorem LQ.cands_ne_nil_all (s : LQ φ) (hs : s.Inv) : ∀ t, t < s.tracks.length → s.cands t ≠ [] := by
+  intro t ht
+  have hk : t ∈ s.queues.map (·.1) := by rw [hs.keys, hs.tracks]; exact List.mem_range.2 ht
+  obtain ⟨q, hq', hqt⟩ := List.mem_map.1 hk
+  have hsome : (s.queues.find? (fun x => x.1 == t)).isSome = true := by
+    rw [List.find?_isSome]; exact ⟨q, hq', by simp [hqt]⟩
+  obtain ⟨x, hx⟩ := Option.isSome_iff_exists.1 hsome
+  have hxm : x ∈ s.queues := List.mem_of_find?_eq_some hx
+  simp only [LQ.cands, hx, Option.map_some, Option.getD_some]
+  exact hs.nonempty x hxm
+
+end stepId
 
 end SleapVerif.Tracker
